@@ -662,6 +662,9 @@ impl TextResource {
     /// textselections (in order) that either start or end in this range (depending on the direction you're
     /// iterating in).
     pub fn range<'a>(&'a self, begin: usize, end: usize) -> TextSelectionIter<'a> {
+        //(a range that ends before it begins holds nothing; BTreeMap::range would panic on it,
+        // but only when the index is not empty)
+        let end = std::cmp::max(begin, end);
         TextSelectionIter {
             iter: self
                 .positionindex
@@ -718,6 +721,9 @@ impl TextResource {
         begin: usize,
         end: usize,
     ) -> Box<dyn Iterator<Item = &'a usize> + 'a> {
+        //(a range that ends before it begins holds nothing; BTreeMap::range would panic on it,
+        // but only when the index is not empty)
+        let end = std::cmp::max(begin, end);
         match mode {
             PositionMode::Begin => Box::new(
                 self.positionindex
